@@ -283,38 +283,51 @@ impl Request {
     }
 
     pub fn cursor_read(cursor: &mut Cursor<&[u8]>, mut iteration_number: usize, request: &mut Request, mut content_length: usize) -> Result<bool, String> {
-        let mut buf = vec![];
-        let bytes_offset = cursor.read_until(b'\n', &mut buf).unwrap();
-        let b : &[u8] = &buf;
-        let boxed_request = String::from_utf8(Vec::from(b));
-        if boxed_request.is_err() {
-            let error_message = boxed_request.err().unwrap().to_string();
-            return Err(error_message);
-        }
-        let string = boxed_request.unwrap();
+        // one pass per line of the head (a loop, not a call per line: the number of header lines is client controlled)
+        loop {
+            let mut buf = vec![];
+            let bytes_offset = cursor.read_until(b'\n', &mut buf).unwrap();
+            let b : &[u8] = &buf;
+            let is_first_iteration = iteration_number == 0;
 
-        let is_first_iteration = iteration_number == 0;
-        let new_line_char_found = bytes_offset != 0;
-        let current_string_is_empty = string.trim().len() == 0;
-
-        if is_first_iteration {
-            match Request::parse_method_and_request_uri_and_http_version_string(&string) {
-                Ok((method, request_uri, http_version)) => {
-                    request.method = method;
-                    request.request_uri = request_uri;
-                    request.http_version = http_version;
+            let boxed_request = String::from_utf8(Vec::from(b));
+            if boxed_request.is_err() {
+                let error_message = boxed_request.err().unwrap().to_string();
+                if is_first_iteration {
+                    return Err(error_message);
                 }
-                Err(error_message) => {
-                    return Err(error_message)
+                eprintln!("unable to read request: {}", error_message);
+                break;
+            }
+            let string = boxed_request.unwrap();
+
+            let new_line_char_found = bytes_offset != 0;
+            let current_string_is_empty = string.trim().len() == 0;
+
+            if is_first_iteration {
+                match Request::parse_method_and_request_uri_and_http_version_string(&string) {
+                    Ok((method, request_uri, http_version)) => {
+                        request.method = method;
+                        request.request_uri = request_uri;
+                        request.http_version = http_version;
+                    }
+                    Err(error_message) => {
+                        return Err(error_message)
+                    }
                 }
             }
-        }
 
-        if current_string_is_empty {
-            return Ok(true);
-        }
+            if current_string_is_empty {
+                if is_first_iteration {
+                    return Ok(true);
+                }
+                break;
+            }
 
-        if new_line_char_found && !current_string_is_empty {
+            if !new_line_char_found {
+                break;
+            }
+
             let mut header = Header { name: "".to_string(), value: "".to_string() };
             if !is_first_iteration {
                 header = Request::parse_http_request_header_string(&string);
@@ -330,14 +343,10 @@ impl Request {
 
             request.headers.push(header);
             iteration_number += 1;
-            let boxed_read = Request::cursor_read(cursor, iteration_number, request, content_length);
-            if boxed_read.is_err() {
-                let reason = boxed_read.err().unwrap().to_string();
-                eprintln!("unable to read request: {}", reason);
-            }
         }
 
         // remaining part is request body
+        let _ = content_length;
 
         let mut buf = vec![];
         let _ = cursor.read_to_end(&mut buf).unwrap();
